@@ -513,6 +513,8 @@ class ExprMixin:
                 if v is None:
                     raise Unsupported(f"module attribute {mn}.{attr}", node, self.path)
                 return [(st, v)]
+            if attr.isupper() and mn in ("socket", "select", "errno", "logging"):
+                return [(st, Val(INT, z3.Int(f"const_{mn}_{attr}")))]
             return [(st, Val(("modattr",), None, conc=f"{mn}.{attr}"))]
         if k == "modattr":
             return [(st, Val(("modattr",), None, conc=f"{base.conc}.{attr}"))]
